@@ -18,6 +18,20 @@ CHECKS["C01"] = dict(
     note="Trusted: Coq kernel, ExtrOcamlBasic extraction + OCaml driver, Go harness (simulated node on mass-core chain DB, generator), verif accessors; mass-core and LevelDB are environment. Record-level model: unspent set and balances are derived from one credit list. No axioms.",
     technique="Coq proof (refinement of the ledger state machine to a chain specification, induction over histories) + extracted-model differential correspondence on real WalletManager histories",
 )
+CHECKS["C14"] = dict(
+    category="proof",
+    text="BIP-32 derivation (master key, CKDpriv/CKDpub, neuter, serialisation, parsing, the m/44'/coin'/account' helpers) proved equal to the BIP text for all seeds, parents, indexes and strings under group/hash laws (section hypotheses), with the guard 'stored parent key has 32 bytes' for hardened children and a refutation witness without it; tied to the code by running the extracted model and the real hdkeychain on seeds, paths to depth 6, constructed leading-zero parents, index boundaries and every single-byte corruption of serialised keys, with an independent BIP-32 implementation as second oracle.",
+    design_ref="DESIGN.md section 5, C14",
+    note="Trusted: Coq kernel (no axioms; primitives are section variables under prim_laws), ExtrOcamlBasic + OCaml driver, Go harness incl. its independent reference (crypto/hmac, sha512, btcec, base58 as oracles recorded per case), verif export files. Known finding short-parent-hardened-child (not repaired); X>=P acceptance repaired (bc42b55).",
+    technique="Coq proof (refinement of the code's byte-level algorithm to the BIP-32 specification, parametric in the primitives) + extracted-model differential correspondence with recorded primitive tables",
+)
+CHECKS["C16"] = dict(
+    category="proof",
+    text="Coq theorems over all byte strings: mass-core's tokenizer/template matching equals the three witness byte layouts; utils.ParsePkScript returns exactly the specified reading (class, owner, staking/binding address, maturity) or an error, agrees with ExtractPkScriptAddrs, is ErrUnsupportedScript exactly for the classes the wallet does not read; the builders round-trip for every hash/period/target; ParsePkScript and (repaired) extractAddressInfos never panic, with witnesses for the two panics of the code as found. Tied to the code by running the extracted model and the real functions plus mass-core's GetScriptClass/ExtractPkScriptAddrs on ~155k generated scripts per quick run.",
+    design_ref="DESIGN.md section 5, C16",
+    note="Trusted: Coq kernel (no axioms), ExtrOcamlBasic + driver, Go harness and verif export files; btcec.ParsePubKey and address encoders are oracles; mass-core txscript/massutil restated in Gallina and tied by the same run. Three defects repaired (97fa21d, b6c522f, 7f827cd).",
+    technique="Coq proof (tokenizer/template equivalence, round trip, panic characterisation) + extracted-model differential correspondence + consensus-library oracle",
+)
 NOT_YET = "not claimed yet in this round: model and correspondence under construction (see DESIGN.md section 9 for the order)"
 
 def main():
